@@ -31,6 +31,36 @@ mod ge;
 pub mod scalar;
 
 pub use fe::Fe;
+
+/// Verification hooks: read-only access to the precomputed base point tables
+#[cfg(feature = "verif-hooks")]
+pub mod verif {
+    use super::fe::precomp;
+    use super::GePrecomp;
+
+    fn enc(p: &GePrecomp) -> [[u8; 32]; 3] {
+        [
+            p.y_plus_x.to_bytes(),
+            p.y_minus_x.to_bytes(),
+            p.xy2d.to_bytes(),
+        ]
+    }
+
+    /// (y+x, y-x, 2dxy) of `GE_BASE[pos][idx]`, which stands for (idx+1) * 256^pos * B
+    pub fn ge_base(pos: usize, idx: usize) -> [[u8; 32]; 3] {
+        enc(&precomp::GE_BASE[pos][idx])
+    }
+
+    /// (y+x, y-x, 2dxy) of `BI[idx]`, which stands for (2*idx+1) * B
+    pub fn bi(idx: usize) -> [[u8; 32]; 3] {
+        enc(&precomp::BI[idx])
+    }
+
+    /// the constant-time table lookup used by the fixed-base multiplication
+    pub fn select(pos: usize, b: i8) -> [[u8; 32]; 3] {
+        enc(&GePrecomp::select(pos, b))
+    }
+}
 pub use ge::{Ge, GeCached, GeP1P1, GePartial, GePrecomp};
 pub use scalar::Scalar;
 
